@@ -255,8 +255,8 @@ func allocationProblem(got []peer.ID, min, max int, current []peer.ID, user []pe
 			if !subset(current, got) {
 				return "healthy-current-holder-dropped"
 			}
-		} else if !subset(got, current) || len(got) != max {
-			return "over-max-holders-not-reduced-to-max-of-them"
+		} else if !subset(got, current) {
+			return "over-max-holders-replaced-instead-of-reduced"
 		}
 		return ""
 	}
